@@ -41,9 +41,16 @@ def big_stack():
         pass
 
 
-def env_for(rc_params=None):
+REUSE_MARK = "# allocator=reuse"
+REUSE_OPTS = ":quarantine_size_mb=0:thread_local_quarantine_size_kb=0"
+
+
+def env_for(rc_params=None, reuse=False):
+    """reuse: freed blocks are handed out again at once, as a production allocator does (ASan's quarantine keeps
+    addresses unique for a long time, which hides state keyed on an address); used by every other worker of the
+    random phases of the non-memory properties, and by the replay of a case such a worker found."""
     e = dict(os.environ)
-    e["ASAN_OPTIONS"] = ASAN_OPTS
+    e["ASAN_OPTIONS"] = ASAN_OPTS + (REUSE_OPTS if reuse else "")
     e["UBSAN_OPTIONS"] = UBSAN_OPTS
     if rc_params:
         e["RC_PARAMS"] = rc_params
@@ -76,7 +83,12 @@ class Known:
 def run_replay(binpath, spec, path, tier, timeout=300):
     cmd = [binpath, "--prop", spec["id"], "--tier", tier, "--replay", path] + spec.get("extra_args", [])
     try:
-        r = subprocess.run(cmd, stdout=subprocess.PIPE, stderr=subprocess.PIPE, env=env_for(), timeout=timeout, preexec_fn=big_stack)
+        with open(path, errors="replace") as fh:
+            reuse = REUSE_MARK in fh.read(4096)
+    except OSError:
+        reuse = False
+    try:
+        r = subprocess.run(cmd, stdout=subprocess.PIPE, stderr=subprocess.PIPE, env=env_for(reuse=reuse), timeout=timeout, preexec_fn=big_stack)
     except subprocess.TimeoutExpired:
         return "timeout", "", ""
     out = r.stdout.decode(errors="replace")
@@ -88,6 +100,8 @@ def run_replay(binpath, spec, path, tier, timeout=300):
         return "pass", "", ""
     if "REPLAY-ERROR" in out:
         return "error", "", out
+    if r.returncode == 97 or "CASE-HARNESS-BUDGET" in err:
+        return "budget", "", "the case exceeds the harness's own CPU budget (inconclusive)"
     if r.returncode == 98 or "CASE-CPU-LIMIT" in err:
         return "crash", "hang/no_result_within_cpu_limit", "the case burns its whole CPU budget (60 s quick / 240 s thorough, process CPU time) without returning"
     # process death
@@ -113,7 +127,7 @@ def run_replay(binpath, spec, path, tier, timeout=300):
     return "crash", "crash/" + kind + ("@" + where if where else ""), (san or what) + "\n" + err[-3000:]
 
 
-def ddmin_text(binpath, spec, text, tier, want_kind, want_sig_prefix, budget=120):
+def ddmin_text(binpath, spec, text, tier, want_kind, want_sig_prefix, budget=120, time_budget=240):
     """greedy removal of ' step' lines while the same kind of failure remains"""
     lines = text.split("\n")
     idx = [i for i, l in enumerate(lines) if (l.startswith(" step") or l.startswith("op ")) and "setparams" not in l]
@@ -127,9 +141,10 @@ def ddmin_text(binpath, spec, text, tier, want_kind, want_sig_prefix, budget=120
         return k == want_kind and sig.startswith(want_sig_prefix)
 
     chunk = max(1, len(idx) // 2)
-    while chunk >= 1 and budget > 0:
+    t_end = time.time() + time_budget     # minimisation is a convenience: bounded by count and by wall clock
+    while chunk >= 1 and budget > 0 and time.time() < t_end:
         i = 0
-        while i < len(idx) and budget > 0:
+        while i < len(idx) and budget > 0 and time.time() < t_end:
             drop = set(idx[i:i + chunk])
             cand = [l for j, l in enumerate(lines) if j not in drop]
             budget -= 1
@@ -219,6 +234,7 @@ def main():
     any_exhaustive = False
     sanitizer_stops = 0
     truncated = False
+    reuse_workers = set()
     for ph_i, ph in enumerate(phases):
         mode = ph["mode"]
         nw = ph.get("workers", NW)
@@ -230,7 +246,8 @@ def main():
             cur = os.path.join(rundir, "p%d-w%d.cur" % (ph_i, w))
             eng = os.path.join(bdir, ph.get("engine", spec["engine"]))
             rc = "seed=%d max_success=%d max_size=%d max_discard_ratio=100" % (sw, ph.get("cases", 100), ph.get("size", 100))
-            e = env_for(rc)
+            reuse = (not spec.get("memory")) and mode == "random" and w % 2 == 1
+            e = env_for(rc, reuse)
             if mode == "fuzz":
                 # coverage-guided phase: fresh corpus seeded with a few pseudo-random byte strings
                 corpus = os.path.join(rundir, "corpus-p%d-w%d" % (ph_i, w))
@@ -251,6 +268,8 @@ def main():
             errf = open(os.path.join(rundir, "p%d-w%d.err" % (ph_i, w)), "w")
             p = subprocess.Popen(cmd, stdout=subprocess.PIPE, stderr=errf, env=e, preexec_fn=big_stack)
             procs.append((w, p, out, fo, cur, errf))
+            if reuse:
+                reuse_workers.add((ph_i, w))
         deadline = time.time() + ph.get("timeout", 3600)
         for (w, p, out, fo, cur, errf) in procs:
             try:
@@ -305,6 +324,8 @@ def main():
                     # configuration, so what this phase finds is recorded, not reported
                     notes.append("informational phase %d (%s): %s :: %s" % (ph_i, ph.get("engine", ""), st.get("signature", ""), st.get("message", "")[:200]))
                 elif st.get("failed"):
+                    if (ph_i, w) in reuse_workers and os.path.exists(fo):
+                        mark_reuse(fo)
                     handle_failure(spec, binpath, bdir, tier, st.get("signature", ""), st.get("message", ""), fo, open_sigs, violations, known_lines, notes)
             else:
                 # process death without a report: the current-case file holds the history that killed it
@@ -312,6 +333,8 @@ def main():
                 if ph.get("informational"):
                     notes.append("informational phase %d (%s): worker %d died: %s" % (ph_i, ph.get("engine", ""), w, errtxt[-300:]))
                 elif os.path.exists(cur) and os.path.getsize(cur) > 0:
+                    if (ph_i, w) in reuse_workers:
+                        mark_reuse(cur)
                     r = handle_crash(spec, binpath, bdir, tier, cur, errtxt, open_sigs, violations, known_lines, notes)
                     if r == "sanitizer_stop":
                         sanitizer_stops += 1
@@ -359,6 +382,13 @@ def save_replay(pid, text):
     return p
 
 
+def mark_reuse(path):
+    txt = open(path).read()
+    if REUSE_MARK not in txt[:4096]:
+        with open(path, "w") as fh:
+            fh.write(REUSE_MARK + "  (found by a worker whose allocator hands freed blocks out again at once; the replay does the same)\n" + txt)
+
+
 def handle_failure(spec, binpath, bdir, tier, sig, msg, fo, open_sigs, violations, known_lines, notes):
     pid = spec["id"]
     if not os.path.exists(fo):
@@ -372,6 +402,19 @@ def handle_failure(spec, binpath, bdir, tier, sig, msg, fo, open_sigs, violation
         last = run_replay(binpath, spec, fo, tier)
         if last[0] in ("fail", "crash"):
             ok += 1
+    if ok < 3 and os.path.exists(fo + ".orig"):
+        # the engine minimises in-process; if static library state left by earlier candidates took part, the minimised
+        # history is not the failing one any more. Fall back to the history as it was found, minimise it here in fresh processes.
+        orig = fo + ".orig"
+        res = [run_replay(binpath, spec, orig, tier) for _ in range(3)]
+        if all(r[0] in ("fail", "crash") for r in res):
+            ok = 3
+            last = res[0]
+            text = open(orig).read()
+            if last[0] == "fail":
+                text = ddmin_text(binpath, spec, text, tier, "fail", last[1], budget=60, time_budget=180)
+            notes.append("failure %s: the in-process minimised history did not replay; reported with the history as found, minimised in fresh processes" % sig)
+            sig = last[1] or sig
     if ok < 3:
         notes.append("failure %s did not replay 3/3 times (%d/3): not reported" % (sig, ok))
         return
@@ -390,6 +433,9 @@ def handle_crash(spec, binpath, bdir, tier, cur, errtxt, open_sigs, violations, 
     with open(tmp, "w") as fh:
         fh.write(text)
     res = [run_replay(binpath, spec, tmp, tier) for _ in range(3)]
+    if any(r[0] == "budget" for r in res) or "CASE-HARNESS-BUDGET" in errtxt:
+        notes.append("a case was abandoned at the harness's own CPU budget (ten times the per-call limit in total): inconclusive, not reported")
+        return "budget"
     if not all(r[0] == "crash" for r in res):
         if all(r[0] == "fail" for r in res):
             sig, msg = res[0][1], res[0][2]
